@@ -254,6 +254,7 @@ def _worker(cfg, wfd):
         import multiprocessing
         from pysmt.environment import reset_env
         from pysmt.logics import QF_BOOL
+        from pysmt.exceptions import PysmtException
         from pysmt.solvers.portfolio import Portfolio
         env = reset_env()
         _install(env)
@@ -264,10 +265,18 @@ def _worker(cfg, wfd):
         p = Portfolio(members, environment=env, logic=QF_BOOL,
                       solver_options={"exit_on_exception": bool(cfg["eoe"])})
         winner = None
+        last_sat = False
         for k, step in enumerate(cfg["script"]):
             op = step[0]
             rec = {"step": k, "op": op}
             t0 = time.time()
+            if op in ("get_model", "get_values") and not last_sat:
+                # a query is only meaningful after a "sat" verdict
+                rec["skipped"] = True
+                emit(rec)
+                continue
+            if op not in ("get_model", "get_values"):
+                last_sat = False
             try:
                 if op == "assert":
                     p.add_assertion(_to_fnode(mgr, syms, step[1]))
@@ -279,6 +288,7 @@ def _worker(cfg, wfd):
                     winner = None
                     res = p.solve()
                     rec["res"] = res if type(res) is bool else repr(res)
+                    last_sat = res is True
                     ext = p._ext_solver
                     if ext is not None:
                         winner = int(ext.name.split(" ")[0])
@@ -294,18 +304,22 @@ def _worker(cfg, wfd):
                     rec["values"] = vals
             except BaseException as e:     # noqa: the outcome "exception" is data
                 rec["exc"] = type(e).__name__
+                rec["pysmt_exc"] = isinstance(e, PysmtException)
                 rec["msg"] = str(e)[:200]
                 if op == "solve":
                     rec["others_alive"] = _others_alive(None)
             rec["dt"] = round(time.time() - t0, 4)
             emit(rec)
         t0 = time.time()
-        p.exit()
-        deadline = time.time() + 5.0
-        while multiprocessing.active_children() and time.time() < deadline:
-            time.sleep(0.005)
-        emit({"step": "exit", "op": "exit", "left": [c.name for c in multiprocessing.active_children()],
-              "dt": round(time.time() - t0, 4)})
+        rec = {"step": "exit", "op": "exit"}
+        try:
+            p.exit()
+        except BaseException as e:     # noqa
+            rec["exc"] = type(e).__name__
+            rec["msg"] = str(e)[:200]
+        rec["left"] = _others_alive(None)
+        rec["dt"] = round(time.time() - t0, 4)
+        emit(rec)
         emit({"step": "done"})
     except BaseException as e:
         import traceback
@@ -639,7 +653,8 @@ def check_result(ctx, cfg, records, blocked, lean_sets, reports):
                                 % (observed, sorted(allowed[0]), line)))
             # S: the property text
             ok = py_allowed(cfg, truth)
-            good = observed in ok or ("err:*" in ok and observed.startswith("err:"))
+            # "err:*": the call must report an error of the library (not an OS-level error such as BrokenPipeError)
+            good = observed in ok or ("err:*" in ok and observed.startswith("err:") and rec.get("pysmt_exc"))
             if not good:
                 oracle = "verdict" if observed.startswith("v:") else "outcome-set"
                 reports.append(("s", dict(base, oracle=oracle, call="solve", observed=observed.split(" ")[0][:60]),
@@ -662,7 +677,7 @@ def check_result(ctx, cfg, records, blocked, lean_sets, reports):
                                     % rec["others_alive"]))
             continue
         # queries
-        if sat_now is None:
+        if sat_now is None or rec.get("skipped"):
             continue           # after unsat / an exception: behaviour unspecified, nothing to check
         w, expected = sat_now
         if "exc" in rec:
@@ -691,6 +706,9 @@ def check_result(ctx, cfg, records, blocked, lean_sets, reports):
             reports.append(("k", None, "serve_from_winner: %s -> %s, but the winner (member %d, pick %d) has the model %s"
                             % (op, got, w, cfg["members"][w]["pick"], exp)))
     ex = [r for r in records if r.get("step") == "exit"]
+    if ex and ex[0].get("exc"):
+        reports.append(("s", dict(base, oracle="outcome-set", call="exit", observed="err:" + ex[0]["exc"]),
+                        "exit() raised %s: %s" % (ex[0]["exc"], ex[0].get("msg"))))
     if ex and ex[0].get("left"):
         reports.append(("k", None, "after exit() member processes %s are still alive" % ex[0]["left"]))
     if not ex and blocked:
